@@ -9,6 +9,9 @@ func VP_C14_step() {
 	K, S := 1+vp.Choice(2), 6
 	if vp.Tier() == 1 {
 		K, S = 1+vp.Choice(3), 7 // (8 sectors did not finish inside the thorough budget on a loaded machine)
+		if K == 3 {
+			S = 6 // (nor did three chunks in 7 sectors: about 300000 paths)
+		}
 	}
 	chunks := vpArbitraryState(K, S)
 	img := vpBuild(chunks, S)
@@ -41,6 +44,8 @@ func VP_C14_step() {
 	lens := vpC14Lens()
 	if K >= 3 {
 		lens = []int{1, 4092, 4093}
+	} else if K == 2 && vp.Tier() == 1 {
+		lens = []int{1, 4091, 4092, 4093, 8189}
 	}
 	n := lens[vp.Choice(len(lens))]
 	data := make([]byte, n)
